@@ -1,4 +1,6 @@
 """C17 — a generated patch transforms its source into its target."""
+import sys
+sys.setrecursionlimit(30000)
 import random, copy
 from .common import *
 from . import patchgen as G
@@ -39,6 +41,13 @@ def generate(ctx):
         elif r < 0.8: b = G.mutate(G.shuffled(copy.deepcopy(a), rng), rng); tags = ['permuted+mutated']
         else: b = G.rand_doc(rng, rng.choice([0, 1, 2, 3]), root=rng.random() < 0.7); tags = ['independent']
         cases.append(case(cs, a, b, tags))
+    # documents nested about as deep as the parser accepts (arrays only: comparing nested OBJECTS is exponential in the library)
+    if ctx.get('seed_index', 0) == 0:
+        for depth in (997, 998, 999, 1000):     # the follow-up health check re-parses the printed inputs: stay within the parser's nesting limit
+            for x, y in ((1, 2), (True, False), ('x', 'y'), (None, 0)):
+                a = x; b = y
+                for _ in range(depth): a = [a]; b = [b]
+                cases.append(case(1, a, b, ['deep']))
     # number pairs on both sides of the tolerance test, bare and inside containers
     for x, y in G.NUM_PAIRS:
         for a, b in ((x, y), (y, x), ([1, x], [1, y]), (G.Obj([('n', x), ('k', 'v')]), G.Obj([('k', 'v'), ('n', y)]))):
